@@ -329,6 +329,21 @@ def run_C10(ctx):
         for rid, t, p in jobs:
             conc = concretise(rng, p, order[t["k"]], behs)
             futs.append(ex.submit(one_run, ctx, rid, t, p, conc, p["n"], "ok"))
+        # a single failure reported early, everything after it proven (the flag must stay cleared), and the mirror image
+        k = 0
+        for t in tasks:
+            names = order[t["k"]]
+            if len(names) < 2:
+                continue
+            for which, n in ((0, 1), (0, 2), (len(names) - 1, 3), (len(names) // 2, 1)):
+                conc = {nm: {"o": "Theorem", "stdout_b64": b64(b"% SZS status Theorem for x\n"), "delay_ms": 25 + 45 * i} for i, nm in enumerate(names)}
+                cls = ["CounterSatisfiable", "GaveUp", "Missing", "Unknown"][k % 4]
+                cands = [b for b in behs if b[1] == cls]
+                ent = dict(cands[k % len(cands)][2])
+                ent.update({"o": cls, "delay_ms": 25 + 45 * which})
+                conc[names[which]] = ent
+                futs.append(ex.submit(one_run, ctx, f"early{k}", t, {"exits": [], "single_failure": names[which]}, conc, n, "ok"))
+                k += 1
         # a prover that answers long after the time limit it was given (anthem itself must keep waiting for the result)
         for k, n in enumerate([2, 3] if ctx.quick() else [1, 2, 3, 4, 8]):
             t = [x for x in tasks if len(x["shas"]) >= 2][k % 2]
